@@ -82,3 +82,48 @@ fn add_positions_step() {
     }
     assert!(s.dm[2].to_bits() == dm[2].to_bits());
 }
+
+
+// A-LIB validation (reduces the trusted base of the RS contracts of C05/C07/C15): float_ord::sort on the
+// slice sizes Quantile uses (1..=5) yields an ascending rearrangement of non-NaN values.
+fn count_eq(a: &[f64], v: f64) -> usize {
+    let mut c = 0;
+    let mut i = 0;
+    while i < a.len() {
+        if a[i].to_bits() == v.to_bits() { c += 1; }
+        i += 1;
+    }
+    c
+}
+
+macro_rules! sort_contract {
+    ($name:ident, $n:expr) => {
+        #[kani::proof]
+        #[kani::unwind(8)]
+        fn $name() {
+            let orig: [f64; $n] = kani::any();
+            let mut i = 0;
+            while i < $n {
+                kani::assume(!orig[i].is_nan());
+                i += 1;
+            }
+            let mut a = orig;
+            sort_floats(&mut a);
+            kani::cover!(true);
+            let mut i = 1;
+            while i < $n {
+                assert!(a[i - 1] <= a[i]);
+                i += 1;
+            }
+            let mut i = 0;
+            while i < $n {
+                assert!(count_eq(&a, orig[i]) == count_eq(&orig, orig[i]));
+                i += 1;
+            }
+        }
+    };
+}
+
+sort_contract!(sort_floats_contract_3, 3);
+sort_contract!(sort_floats_contract_4, 4);
+sort_contract!(sort_floats_contract_5, 5);
